@@ -534,14 +534,20 @@ def hostile_packet(rng, st, conv, now):
         c = rng.choice([conv + 1, conv - 1, conv ^ 0x80000000, conv ^ 1, conv ^ 0x01000000, rng.randrange(M32)]) % M32
         if c == conv:
             c = (conv + 1) % M32
-    return mk_pkt(c, seq, ack, flags, wnd, tsval, tsecr, payload, ctl=rng.choice([0, 0, 0, rng.randrange(256)])), wrong
+    full = mk_pkt(c, seq, ack, flags, wnd, tsval, tsecr, payload, ctl=rng.choice([0, 0, 0, rng.randrange(256)]))
+    if rng.random() < 0.04:
+        # a datagram cut inside the 24-byte header (right conversation number, too short to be a segment)
+        return full[:rng.choice([4, 5, 8, 12, 16, 20, 23])], wrong
+    return full, wrong
 
 
 def hostile_step(S, s, rng):
     st = S.last[s]
     conv = S.cfg[s]["conv"]
     p, wrong = hostile_packet(rng, st, conv, S.now)
-    d = S.sockop(s, f"ptcp pkt {s} {p.hex() if p else '-'}", "hostile")
+    # the agent hands every datagram to pseudo_tcp_socket_notify_message (24-byte header buffer + body buffer);
+    # `pktm` takes that entry point, `pkt` the contiguous one — the model has one meaning for both
+    d = S.sockop(s, f"ptcp {rng.choice(['pkt', 'pktm'])} {s} {p.hex() if p else '-'}", "hostile")
     idx = len(S.ops) - 1
     if d is not None:
         S.events.append((idx, "hostile", s, wrong, len(p), d["ret"]))
@@ -736,12 +742,14 @@ def oracle_c10(S):
             hi[s] = 0
             continue
         prev = last[s]
-        if w[1] == "pkt" and prev is not None:
+        if w[1] in ("pkt", "pktm") and prev is not None:
             f = pkt_fields(w[3])
             if f is None or f["conv"] != S.cfg[s]["conv"] or f["len"] + 24 > 65532:
                 # foreign / truncated / over-long packet
                 exp_err = prev["err"]
-                if f is None:
+                if w[1] == "pktm" and (f is None or f["len"] + 24 > 65532):
+                    exp_err = prev["err"]          # notify_message refuses without recording an error code
+                elif f is None:
                     exp_err = "EINVAL"
                 elif f["len"] + 24 > 65532:
                     exp_err = "EMSGSIZE"
